@@ -2,7 +2,7 @@
 from . import shared as S
 
 META = {
-    'claim_added': "Also decided: the sweetened node is what the enum/string-like representers return; the converting handler cannot fail itself (literal format strings, e.args guarded) and may sit at the hook call or at its caller; the registries used for 'registered ancestor' are not shared tables (R11.3).",
+    'claim_added': "Also decided: the sweetened node is what the enum/string-like representers return; the converting handler cannot fail itself (literal format strings, e.args guarded) and may sit at the hook call or at its caller; the registries used for 'registered ancestor' are not shared tables (R11.3). Round 3: every path through __process_node passes the recognition gate (no already-tagged shortcut); only the classes passed by the caller are registered, on the loading and on the dumping side (R10.7).",
     'level': 'other',
     'technique': 'static: hook call sites located by attribute name; own-__dict__ guard by dominance; ancestor loop shape and '
                  'dominance over the own hook; single external caller; placement by must-pass-through; converting handler',
